@@ -84,12 +84,33 @@ type FnTr struct {
 	curInstr ssa.Instruction
 	fnFrame  []cellRange // declared modifies of the top-level function, evaluated at entry
 	storeChecks bool     // recovering function with a frame: every write is checked against it
+	lazy     []func(*Term) *Term
+	idxCands []*Term // index terms used by the code: instantiation candidates for quantifiers
+	recSpecs map[string]*SpecFunc
 	refuteWrap bool      // bounded search with exact wrap-around arithmetic
 	copyBound  int64
 	refute   bool        // counterexample search: bounded unrolling, inlining, no quantifiers
 	unrollK  int
 	excEdges []excEdge   // refute mode: precise exceptional edges
 	inlining map[*ssa.Function]bool
+}
+
+func (tr *FnTr) noteIndex(t *Term) {
+	top := tr.top
+	for _, c := range top.idxCands {
+		if c.Key() == t.Key() {
+			return
+		}
+	}
+	top.idxCands = append(top.idxCands, t)
+	if len(top.idxCands) > 16 {
+		top.idxCands = top.idxCands[1:]
+	}
+	if len(top.lazy) <= 24 {
+		for _, f := range top.lazy {
+			top.vc.Assume(f(t))
+		}
+	}
 }
 
 // writeCheck: in a recovering function the frame must hold at every possible panic point,
@@ -494,6 +515,11 @@ func (tr *FnTr) defVal(base string, v Val) Val {
 		} else {
 			out.L[i] = tr.vc.Def(fmt.Sprintf("%s_%d", base, i), t)
 		}
+		if out.L[i] != t {
+			if k, ok := tr.eng.bits[t.Key()]; ok {
+				tr.eng.bits[out.L[i].Key()] = k
+			}
+		}
 	}
 	return out
 }
@@ -695,6 +721,7 @@ func (tr *FnTr) procLoop(l *Loop) {
 	for _, c := range invs {
 		ctx := tr.specCtxAt(hst, hdrPhi, h)
 		ctx.entryCtx = tr.specCtxAt(est, entryPhi, h)
+		ctx.guard = hst.Reach
 		tr.vc.Assume(Implies(hst.Reach, ctx.fact(c.E)))
 	}
 	for _, a := range autoInv {
@@ -812,6 +839,16 @@ func (tr *FnTr) havocMem(m, alloc *Term, frame []cellRange, allocs bool, tag str
 			m1 = vc.Def("mem_hv_"+tag, Store(m1, r.Obj, a))
 			continue
 		}
+		if mx, ok := upperBound(Sub(r.Hi, r.Lo)); ok && mx <= 16 {
+			// small symbolic range with a static bound: conditional stores, no quantifier
+			a := old
+			for k := int64(0); k < mx; k++ {
+				idx := Add(r.Lo, Int(k))
+				a = Store(a, idx, Ite(Lt(idx, r.Hi), vc.Fresh(fmt.Sprintf("hv_%s_%d", tag, i), SInt), Select(old, idx)))
+			}
+			m1 = vc.Def("mem_hv_"+tag, Store(m1, r.Obj, a))
+			continue
+		}
 		na := vc.Fresh(fmt.Sprintf("hvarr_%s_%d", tag, i), SArr)
 		j := Sym("j!q", SInt)
 		vc.Assume(Forall([]*Term{j}, Implies(Or(Lt(j, r.Lo), Ge(j, r.Hi)), Eq(Select(na, j), Select(old, j))), Select(na, j)))
@@ -824,6 +861,39 @@ func (tr *FnTr) havocMem(m, alloc *Term, frame []cellRange, allocs bool, tag str
 	o := Sym("o!q", SInt)
 	vc.Assume(Forall([]*Term{o}, Implies(Lt(o, alloc), Eq(Select(m2, o), Select(m1, o))), Select(m2, o)))
 	return m2
+}
+
+// upperBound: a static upper bound of a term built from constants, ite and +.
+func upperBound(t *Term) (int64, bool) {
+	t = expandDefShallow(t)
+	if c := t.IntConst(); c != nil {
+		if c.IsInt64() {
+			return c.Int64(), true
+		}
+		return 0, false
+	}
+	switch t.Op {
+	case "ite":
+		a, ok1 := upperBound(t.Args[1])
+		b, ok2 := upperBound(t.Args[2])
+		if ok1 && ok2 {
+			if a > b {
+				return a, true
+			}
+			return b, true
+		}
+	case "+":
+		var sum int64
+		for _, x := range t.Args {
+			v, ok := upperBound(x)
+			if !ok {
+				return 0, false
+			}
+			sum += v
+		}
+		return sum, true
+	}
+	return 0, false
 }
 
 // frameObligation: every cell of every object older than alloc that lies outside the frame
